@@ -1,7 +1,7 @@
 (** C02 — Joining a task returns that task's own result once it finishes.
     (positive theorems for one pool are added by Sched/PoolProofs; this file holds what is
     established so far) *)
-From OCV Require Import Cases.Pool Sched.Join Sched.JoinProofs.
+From OCV Require Import Cases.Pool Sched.Join Sched.JoinProofs Sched.JoinHandle.
 Open Scope Z_scope.
 
 Definition c02_witness : pcase :=
@@ -40,7 +40,41 @@ Proof. exact woken_means_result. Qed.
 Theorem C02_refuted_old_protocol : exists sched, lost_wakeup (jrun Old sched) = true.
 Proof. exact old_protocol_lost_wakeup. Qed.
 
+(** a task that finished before the wait began: no schedule, and no wait time however short (the
+    timeout may fire at any step), makes the wait report a timeout *)
+Theorem C02_finished_task_never_times_out : forall sched,
+  not_timed_out_empty (fold_left (jstep Repaired) sched j_finished) = true.
+Proof. exact finished_task_never_times_out. Qed.
+
+(** a timeout is reported only at a moment when the result is not there *)
+Theorem C02_timeout_only_without_result : forall s,
+  j_w s = W3 -> j_w (jstep Repaired s Timeout) = WDone false true -> j_result s = false.
+Proof. exact timeout_only_without_result. Qed.
+
+(** * The join handle (deadline arithmetic on top of the wait) *)
+Theorem C02_join_finished_returns_own : forall r j,
+  finished_by_deadline j = true -> fst (jh_step true r false j) = JHVal r.
+Proof. exact jh_finished_returns_own. Qed.
+
+Theorem C02_join_timeout_only_if_unfinished : forall r j,
+  fst (jh_step true r false j) = JHTimedOut -> finished_by_deadline j = false.
+Proof. exact jh_timeout_only_if_unfinished. Qed.
+
+Theorem C02_join_expired_deadline_still_returns : forall r now deadline f,
+  f <= now -> fst (jh_step true r false {| jj_deadline := deadline; jj_now := now; jj_fin_at := Some f |}) = JHVal r.
+Proof. exact jh_expired_deadline_still_returns. Qed.
+
+Theorem C02_join_result_handed_out_once : forall r js consumed,
+  (List.length (filter (fun o => match o with JHVal _ => true | _ => false end) (jh_run true r consumed js)) <= 1)%nat.
+Proof. exact jh_at_most_once. Qed.
+
 Print Assumptions C02_refuted_result_in_stealing_pool.
+Print Assumptions C02_finished_task_never_times_out.
+Print Assumptions C02_timeout_only_without_result.
+Print Assumptions C02_join_finished_returns_own.
+Print Assumptions C02_join_timeout_only_if_unfinished.
+Print Assumptions C02_join_expired_deadline_still_returns.
+Print Assumptions C02_join_result_handed_out_once.
 Print Assumptions C02_no_lost_wakeup.
 Print Assumptions C02_prompt.
 Print Assumptions C02_own_result_protocol.
